@@ -88,16 +88,33 @@ def geometricOk (cfg : Cfg) (tol : Rat) (t : Track) : Ob → Bool
 def geometricStep (cfg : Cfg) (tol : Rat) (pre : Snap) (t : Track) (s : Step) : Bool :=
   checkObs (geometricOk cfg tol) s.ev (isRetryStep t s.ev) (trackEv pre t s.ev) s.obs
 
+/-- what an answer says failed, and how: failed payloads with their failure, then error-coded responses with
+    their code; a total failure of Kafka kind fails every payload of the request -/
+def failedKinds (ps : List Payload) : ProdRes → List (TP × ErrKind)
+  | .responses rs => (rs.filter (·.error ≠ 0)).map (fun r => (r.tp, .broker r.error))
+  | .failed rs fs => fs.map (fun f => (f.tp, f.kind)) ++ (rs.filter (·.error ≠ 0)).map (fun r => (r.tp, .broker r.error))
+  | .err k => if k.isKafka then ps.map (fun p => (p.tp, k)) else []
+  | .none => []
+
+/-- every send of the payloads `ps` for `tp` that is still outstanding fires `o` in this step -/
+def firesOn (pre : Snap) (s : Step) (ps : List Payload) (tp : TP) (o : Outcome) : Bool :=
+  (ps.filter (·.tp = tp)).all (fun p => p.sids.all (fun sid =>
+    !pre.outstanding.contains sid || s.obs.contains (.fire sid o)))
+
 /-- Acknowledged ones are reported at once: in the step that takes the client's answer to the request in flight,
     every send riding on a payload the answer acknowledges (error 0) that was still outstanding fires `ok` with
-    that very response; and when the answer ends the batch for good (attempts used up, not stopped) every send
-    still outstanding on a payload it reports failed fails with THAT error. -/
+    that very response; when the answer ends the batch for good (attempts used up, not stopping) every send
+    still outstanding on a payload it reports failed fails with THAT error; and a failure that is no Kafka error
+    fails every send of the request with it, retries left or not. -/
 def reportedStep (cfg : Cfg) (pre : Snap) (t : Track) (s : Step) : Bool :=
   match (if effective t s.ev then completionOf s.ev else none), t.cur, t.curRes with
   | some r, some (_, ps), none =>
-    ((respsOf r).filter (·.error = 0)).all (fun resp =>
-      (ps.filter (·.tp = resp.tp)).all (fun p => p.sids.all (fun sid =>
-        !pre.outstanding.contains sid || s.obs.contains (.fire sid (.ok resp)))))
+    ((respsOf r).filter (·.error = 0)).all (fun resp => firesOn pre s ps resp.tp (.ok resp)) &&
+    (!(decide (cfg.maxAttempts ≤ pre.attempts) && !(trackEv pre t s.ev).stopped) ||
+      (failedKinds ps r).all (fun f => firesOn pre s ps f.1 (.err f.2))) &&
+    (match r with
+     | .err k => k.isKafka || ps.all (fun p => firesOn pre s ps p.tp (.err k))
+     | _ => true)
   | _, _, _ => true
 
 def order (cfg : Cfg) (tr : List Step) : Bool := checkTrace cfg orderStep tr
